@@ -171,6 +171,10 @@ def c06(tier, seed):
             # usize::MAX as skip count from every position (index + n must not overflow)
             extra.append(dict(d, op="nth", arg=2147483647))
             extra.append(dict(d, op="nth_back", arg=2147483647))
+            # ... and 2^32 + j: a skip count whose low 32 bits are small
+            for j in (0, 1):
+                extra.append(dict(d, op="nth", arg=2000000000 + j))
+                extra.append(dict(d, op="nth_back", arg=2000000000 + j))
             for i in range(d["b"] - d["f"]):
                 extra.append(dict(d, op="as_mut_swap", arg=i))
     scns = [iter_script(d, "C06") for d in descs + extra]
@@ -667,6 +671,34 @@ def random_histories(rng, count, max_len, steps_n, max_vals=3):
     return out
 
 
+def big_bytes_scripts(lens, prop):
+    """Length-preserving ownership moves of arrays whose BYTE size is large (1 KiB tracked elements: 97 KiB at
+    N = 97, 1 MiB at N = 1024): conversions to and from Vec / Box / Box<[T]> / native arrays, the functional
+    operations, by-value iteration abandoned half-way.  A fast path selected by byte size is on the path here."""
+    out = []
+
+    def add(name, steps, alloc=False):
+        s = {"case": "bigbytes-" + name, "prop": prop, "ety": "tk1k", "steps": steps, "d": {"kind": "big-bytes", "op": name, "n": steps[0].get("n")}}
+        if alloc:
+            s["alloc"] = True
+        out.append(s)
+    for n in lens:
+        add("vec_from_arr", [_mk("arr", n), {"op": "vec_from_arr", "recv": [1]}, {"op": "arr_try_from_vec", "recv": [2], "arg": n}], alloc=True)
+        add("bslice_from_arr", [_mk("arr", n), {"op": "bslice_from_arr", "recv": [1]}, {"op": "arr_try_from_bslice", "recv": [2], "arg": n}], alloc=True)
+        add("box_new_unbox", [_mk("arr", n), {"op": "box_new", "recv": [1]}, {"op": "unbox", "recv": [2]}], alloc=True)
+        add("box_vec_box", [_mk("box", n), {"op": "into_vec", "recv": [1]}, {"op": "try_from_vec", "recv": [2], "arg": n}, {"op": "into_boxed_slice", "recv": [3]}, {"op": "try_from_boxed_slice", "recv": [4], "arg": n}], alloc=True)
+        add("box_into_iter", [_mk("box", n), {"op": "box_into_iter", "recv": [1]}], alloc=True)
+        add("native", [_mk("arr", n), {"op": "into_array", "recv": [1]}, {"op": "from_array", "recv": [2]}, {"op": "into_native", "recv": [3]}, {"op": "from_native", "recv": [4]}])
+        add("map", [_mk("arr", n), {"op": "map", "recv": [1], "form": ["own"]}])
+        add("map_ref", [_mk("arr", n), {"op": "map", "recv": [1], "form": ["ref"]}])
+        add("zip", [_mk("arr", n), _mk("arr", n), {"op": "zip", "recv": [1, 2], "form": ["own", "own"]}])
+        add("fold", [_mk("arr", n), {"op": "fold", "recv": [1], "form": ["own"]}])
+        add("clone", [_mk("arr", n), {"op": "clone", "recv": [1], "form": ["ref"]}])
+        add("iter_abandon", [_mk("arr", n), {"op": "into_iter", "recv": [1]}, {"op": "next", "recv": [2]}, {"op": "next_back", "recv": [2]}, {"op": "nth", "recv": [2], "arg": 3}, {"op": "iter_clone", "recv": [2]}])
+        add("iter_collect", [_mk("arr", n), {"op": "into_iter", "recv": [1]}, {"op": "collect_iter", "recv": [2], "n": n}])
+    return out
+
+
 @check("C03")
 def c03(tier, seed):
     c = Check("C03", tier, seed)
@@ -695,6 +727,7 @@ def c03(tier, seed):
     c.conform(binary, with_etys(scns, ["tk", "zst", "plain"]), "tlc-simulation")
     rnd = random_histories(rng, 30 if tier == "quick" else 300, 12, 40 if tier == "quick" else 120)
     c.conform(binary, with_etys(rnd, ["tk", "zst", "plain"]), "random-histories")
+    c.conform(binary, big_bytes_scripts([97] if tier == "quick" else [97, 1024], "C03"), "big-bytes")
     if tier != "quick":
         c.asan_pass("random-histories")
         c.asan_pass("tlc-simulation")
@@ -843,12 +876,15 @@ def c09(tier, seed):
     for n in (1, 4, 8, 12):
         for op in ("remove", "swap_remove"):
             descs.append({"op": op, "n": n, "arg": 2147483647, "m": 0})
+            # 2^32 + j: out of range, but the low 32 bits are a valid index
+            for j in sorted({0, 1, n - 1}):
+                descs.append({"op": op, "n": n, "arg": 2000000000 + j, "m": 0})
     for n in (9, 10, 11):
         descs += [{"op": "append", "n": n, "arg": 0, "m": 0}, {"op": "prepend", "n": n, "arg": 0, "m": 0}, {"op": "pop_back", "n": n + 1, "arg": 0, "m": 0}, {"op": "pop_front", "n": n + 1, "arg": 0, "m": 0}]
         descs += [{"op": "split", "n": 12, "arg": n, "m": 0}, {"op": "concat", "n": n, "arg": 0, "m": 12 - n}, {"op": "remove", "n": 12, "arg": n, "m": 0}, {"op": "swap_remove", "n": 12, "arg": n, "m": 0}]
     scns = [seq_scripts(d, "C09") for d in descs]
     c.cov["exhaustive"] = True
-    c.cov["bounds"] = {"model": "N in 0..8, every K <= N, every (N, M) with N+M <= 8, every index 0..N+1", "extra": "usize::MAX indices, lengths 9..12"}
+    c.cov["bounds"] = {"model": "N in 0..8, every K <= N, every (N, M) with N+M <= 8, every index 0..N+1", "extra": "usize::MAX and 2^32 + j indices, lengths 9..12"}
     c.conform(binary, with_etys(scns, ["tk", "zst", "plain", "tk24", "p1"]), "owned")
     if tier != "quick":
         c.asan_pass("owned")
@@ -1016,6 +1052,7 @@ def c15(tier, seed):
             if s["d"]["op"] not in ("box_map", "box_fold", "box_zip", "box_clone")]
     c.cov["bounds"] = {"N": lens, "source lengths": "0, N-1, N, N+1", "vec capacity": "len and len+2"}
     c.conform(binary, scns, "conversions")
+    c.conform(binary, [s for s in big_bytes_scripts([97] if tier == "quick" else [97, 1024], "C15") if s.get("alloc")], "big-bytes")
     big = [{"case": "big", "prop": "C15", "d": {"op": op, "shape": sh}} for op in BIG_OPS for sh in BIG_SHAPES]
     c.conform(binary, big, "big-on-small-stack", sub="big")
     c.assumptions.append("O(1) rule: no allocator event between call and ret and the same block id afterwards, measured by the harness's recording global allocator")
